@@ -277,7 +277,7 @@ def Call.seqPath (size : Nat) : Call → Bool
 inductive TPc
   | idle
   | wPre (w : Nat) | wLocked (w : Nat) | wWaiting (w : Nat) | wTrue (w : Nat) | wPopped (w : Nat) | wRel (w : Nat)
-  | wRun0 (w : Nat) | wRun1 (w call : Nat) | wRun2 (w call : Nat) | wRun3 (w : Nat) (threw : Bool) | wLoop (w : Nat)
+  | wRun0 (w : Nat) | wRun1 (w call : Nat) | wRun2 (w call : Nat) | wRun3 (w : Nat) | wLoop (w : Nat)
   | wClr1 (w : Nat) | wClr2 (w : Nat) | wClr3 (w : Nat) | wGone
   | eq0 (call : Nat) | eq1 (call : Nat) | eq2 (call : Nat) | eq3 (call cid : Nat) | eq4 (call cid : Nat)
   | mp0 (call : Nat)
@@ -434,9 +434,12 @@ def Ck.onEvent (calls : Array Call) (k : Ck) (e : Raw) : Except Err Ck := do
         else .error (.path s!"task {t} (call {call}, position {pos}) got range [{e.a},{e.b}), the model says {reprStr (cl.ranges[pos]?)}")
       | _, _ => .error (.path s!"worker {w}: operator arguments without a running task")
     else bad
-  | .wRun2 w call => if e.kind = K.opEnd ∧ e.a = call then pure (k.setTpc tid (.wRun3 w (e.b != 0))) else bad
-  | .wRun3 w threw =>
-    if e.kind = K.runEnd ∧ e.b = w then do pure ((← k.emit (.wRunEnd w threw)).setTpc tid (.wLoop w)) else bad
+  | .wRun2 w call =>
+    -- the future becomes ready inside `packaged_task::operator()` right after the operator returns, i.e. between the
+    -- harness's `opEnd` and the hook's `run_end`; the waiting client may be observed before `run_end`, hence the
+    -- model's `wRunEnd` is folded at `opEnd` (the last observable point before the future is ready)
+    if e.kind = K.opEnd ∧ e.a = call then do pure ((← k.emit (.wRunEnd w (e.b != 0))).setTpc tid (.wRun3 w)) else bad
+  | .wRun3 w => if e.kind = K.runEnd ∧ e.b = w then pure (k.setTpc tid (.wLoop w)) else bad
   | .wLoop w => if e.kind = K.preLock ∧ e.b = w then pure (k.setTpc tid (.wPre w)) else bad
   | .wClr1 w => if e.kind = K.notifyAll ∧ e.b = w then do k.holds tid; pure (k.setTpc tid (.wClr2 w)) else bad
   | .wClr2 w => if e.kind = K.lockRelease ∧ e.b = w then do pure ((← k.release tid).setTpc tid (.wClr3 w)) else bad
